@@ -13,7 +13,7 @@ RULE = ("same exhausted RandomGen runs as C06; the enumerator is wrapped from ou
         "probability; non-trivial = >=2 candidate keys; distinct = (design skeleton, enumerator shape: rounds/leftover/preamble)")
 ASSUMPTIONS = ["reference semantics (sim/refsem.py) reads the documentation correctly",
                "probabilities are computed from the ranges the library passed to randrange, assuming an ideal uniform randrange"]
-BUDGET = {"quick": 45, "thorough": 900}
+BUDGET = {"quick": 300, "thorough": 900}
 RUNS = {"quick": 2500, "thorough": 100000}
 
 
